@@ -22,11 +22,11 @@ CLAIMED = {
   "text": ("Proof on the simple-schema query fragment: `bindGen` transcribes what server/parameter.gotmpl emits (presence test, last value wins, empty-value rule, swag.SplitByFormat, item loop, "
            "array validations), `bindRef` is written from the Swagger 2.0 parameter rules; for ALL parameter specs and ALL raw values: scalar_agrees (string/integer), array_agrees under "
            "`cleanItems`, bind_sound_one/many (whatever the handler receives satisfies every declared validation), required_enforced, optional_absent_keeps_default; the hypotheses are shown "
-           "necessary by array_differs_on_blank_items and bool_garbage_accepted (known findings). Tie: generated servers with 8 random parameters are compiled and ~25 raw values per parameter "
+           "necessary by array_differs_on_blank_items and bool_garbage_accepted (known findings). multi_agrees / multi_sound cover collectionFormat multi (no splitting: agreement on EVERY request). Tie: generated servers with three operations (query, urlencoded formData, header) of 5 random parameters each are compiled and ~25 raw values per parameter "
            "are sent; handler-reached and the bound value must equal bindGen exactly and bindRef outside the two known findings."),
   "note": ("Trusted: Lean kernel + audited axioms; genlab server lab; encoding/json projection of the parameter struct. Modelled rather than verified: net/http query parsing, the runtime router, "
-           "swag.SplitByFormat/ConvertInt/ConvertBool (dependencies, transcribed). Outside the fragment (not claimed by the theorems, not yet sent): header, path, formData and body parameters, "
-           "number and strfmt formats, patterns, defaults, multi and nested arrays."),
+           "swag.SplitByFormat/ConvertInt/ConvertBool (dependencies, transcribed). Outside the fragment (not claimed by the theorems, not yet sent): path, multipart and body parameters, "
+           "number and strfmt formats, patterns, defaults and nested arrays."),
  },
  "C05": {
   "technique": "Lean 4 proof (properties of the tolerated-difference relation for all schemas and documents) + compiled generated models round-tripped on valid instances",
@@ -47,6 +47,20 @@ CLAIMED = {
            "must equal the model under one of the two scheme orders of an alternative."),
   "note": ("Trusted: Lean kernel + audited axioms; genlab server lab (generated server + generated glue main, httptest in-process); the stub authenticators and their mirror. "
            "Modelled rather than verified: go-openapi/runtime's router and Authenticate (dependency, transcribed), OAuth2 token introspection (stub), the Authorizer hook (default allow)."),
+ },
+ "C07": {
+  "technique": "Lean 4 proof (order-independence theorems per loop class + a census of every range-over-map regenerated from the source with go/types, discharged by decide) + N-run differential of every command in fresh processes",
+  "text": ("Proof for iteration order, partial for schedules: `Gen.mapRanges` lists EVERY `range` over a map in generator/, codescan/ and the diff command (103 today), each classified by syntactic rules "
+           "(map/set write, commutative fold, collect-then-sort incl. sorted-by-every-caller, first-error return, differences appended to the sorted report) or by a hand-made classification tied to the hash "
+           "of the loop body; all_ranges_discharged (decide +kernel) requires every loop to be in a class with an independence theorem: sort_indep / collect_sort_indep / keys_sorted_indep / sort_by_key_indep "
+           "(for ALL lists and ALL permutations, mergeSort of a permutation is the same list), writeAll_indep (map writes with distinct keys commute), any_indep, count_indep, find_unique_indep, diffs_sorted_indep. "
+           "A sort removed, a new unsorted range, or an edited hand-classified loop makes the obligation fail; the search is the differential: every command (generate model/server/client/cli/markdown, flatten, "
+           "expand, mixin, diff text/json, generate spec on two scanner fixtures) is run N times in fresh processes on a spec with 9-12 entries in every map and the outputs are compared byte for byte. "
+           "Four order-sensitive loops found this way were repaired (fix: commits); the order-dependent visited-key bookkeeping of the diff analyser is a known finding. "
+           "Not covered by a theorem: data races of concurrent library calls (runtime behaviour)."),
+  "note": ("Trusted: Lean kernel + audited axioms; the census translator (go/packages + go/types, classification rules in harness/internal/census - a wrong rule is caught only by the differential); "
+           "the CLI built from the working tree; sha256 tree comparison. Modelled rather than verified: loop bodies are classified, not translated; purity of functions called inside a loop is assumed "
+           "by the rules and validated by the differential. Concurrency (schedules): not modelled."),
  },
  "C08": {
   "technique": "Lean 4 proof (invariant over the registration loop of gatherOperations for all candidate lists; counterexample theorem) + correspondence through a verif accessor + generation census",
